@@ -46,6 +46,35 @@ OFAULT_PROGS = ["{ print $.name }", "{ $.x = 1 }", "{ $.x++\n print 'x is', $.x 
                 "{ $.list = [1, [], {}] }", "{ n++ }\nEND { print n }", "{ $ = $.pluck('name') }", "BEGIN { printf('%s|', 'no newline') }",
                 "{ for (i = 0; i < 300; i++) { $.arr[i] = 'element number ' + i } }", "{ print json($) }"]
 
+# ---- printf verbs and percent signs in everything that reaches standard output or the -o document: keys, values, $file names, program
+# output.  The bytes written are the bytes the library produces, never a format string.
+PCT_DOCS = ['{"rate":"50% discount","cpu":"100%"}', '{"%d":"%s","%v":["%!d(MISSING)","%%","%"],"100%":{"%5.2f":"%x","k":"%!(EXTRA string=x)"}}',
+            '["%d %s %v","%!d(MISSING)","%%","%","%[1]d","%*d","%n","%!(NOVERB)","%!s(PANIC=x)"," % "]', '"%s"', '"%"', '{"a":"%"}\n{"a":"%%d"}',
+            '[{"name":"100%","n":1},{"name":"%d","n":2}]', '{"%":{"%":{"%":"%"}}}', '{"k":"ends in %"}', '{"k":"%\\n%s\\t%v"}']
+PCT_PROGS = ["{ $.seen = true }", "{ print }", "", "{ $.f = $file }", "{ $[\"%d\"] = \"%s %v\" }", "{ print \"%d %s %v %!d(MISSING) %% %\" }", "{ $ = \"100%\" }",
+             "{ $ = [\"%d\", $file, $] }", "BEGIN { printf(\"%s%%|%v\\n\", \"%d\", \"100%\") }\n{ $.p = \"%\" }", "{ for (k, v in $) print k, v }", "{ print json($) }",
+             "{ $ = {\"%s\": $file, \"%\": $} }", "END { print \"100%\" }", "{ printf(\"%v%%\", 5) }", "{ print $file, \"%v\"\n $.name = \"%!s(MISSING)\" }",
+             "{ $ = $file + \"%d\" }", "BEGINFILE { print \"%s\", $file }\n{ $[$file] = \"%\" }", "{ x = \"%\"\n $ = [x, x + x, x + \"d\"] }"]
+PCT_NAMES = ["100%d.json", "%s %v.json", "%!d(MISSING).json", "50%.json", "sub/%%.json", "%", "in0.json", "%[1]s.json"]
+PCT_SELS = ["'100%'", "$[\"%d\"]", "{\"%v\": $}", "['%s', $]"]
+
+# ---- program output that does not end in a line break (or is empty), followed by the -o - document: the document comes after ALL of it
+NONL_PROGS = ["{ printf(\"%v,\", $.n); $.n = $.n * 10 } END { printf(\"total: \") }", "BEGIN { printf(\"x\") }", "BEGIN { printf(\"only begin, no newline\") }\n{ $.x = 1 }",
+              "END { print \"line\"\n printf(\"tail\") }", "{ printf(\"%v\", $index) }", "{ print $index\n printf(\"-\") }", "BEGIN { printf(\"a\\nb\") }",
+              "BEGIN { printf(\"\\n\\nx\") }", "{ $.x = 1 }", "", "BEGIN { printf(\"\") }", "ENDFILE { printf(\"ef %s\", $file) }",
+              "BEGINFILE { printf(\"bf\") }\n{ print }\nEND { printf(\"end\") }", "BEGIN { printf(\" \") }", "{ printf(\"%s\\r\", \"cr\") }", "BEGIN { print \"é\"\n printf(\"é\") }",
+              "BEGIN { printf(\"partial\")\n x = 1 / 0 }", "{ printf(\"%v;\", $index)\n if ($index == 1) exit }\nEND { printf(\"end\") }", "BEGIN { printf(\"b\")\n exit }\n{ print \"never\" }",
+              "{ $ = 7\n printf(\"[\") }", "END { printf(\"{\\\"not\\\": \\\"the document\\\"}\") }", "BEGIN { print \"line\" }\nEND { printf(\"%v %v\", 1, 2) }",
+              "{ print }\nEND { printf(\"after the records\") }", "function f(a) { printf(\"%v|\", a)\n return a }\n{ $.v = f($index) }",
+              # long output without a line break: around the usual buffer sizes, in one piece and in thousands of small pieces
+              "BEGIN { s = \"0123456789abcdef\"\n for (i = 0; i < 8; i++) { s = s + s }\n printf(\"%s\", s) }\nEND { printf(\"tail\") }",
+              "BEGIN { s = \"0123456789abcdef\"\n for (i = 0; i < 12; i++) { s = s + s }\n printf(\"%s\", s) }",
+              "BEGIN { s = \"0123456789abcdef\"\n for (i = 0; i < 12; i++) { s = s + s }\n printf(\"%s\", s)\n printf(\"x\") }\n{ $.x = 1 }",
+              "BEGIN { s = \"0123456789abcdef\"\n for (i = 0; i < 12; i++) { s = s + s }\n print s\n printf(\"%s\", s)\n printf(\"tail\") }",
+              "BEGIN { for (i = 0; i < 3000; i++) { printf(\"%v,\", i) } }\nEND { printf(\"end\") }",
+              "BEGIN { for (i = 0; i < 1500; i++) { print i\n printf(\"%v\", i) } }"]
+NONL_DOCS = ['[{"n":1},{"n":2}]', DOC2, "[1,2,3]", "{}", "5", '{"a":{"b":[1,2]}}', "[1]\n[2]"]
+
 
 def _fsize_limit(n):
     def pre():
@@ -89,7 +118,10 @@ class C14(Check):
             "document {/dev/full, file-size limit 0 / a few bytes, missing directory, path below a file, a directory, read-only file, "
             "read-only directory} x {-f, inline} x {file, stdin}: non-zero exit and a diagnostic after the program's own output; stdout / exit status / -o bytes are compared with "
             "the library's result (RUN case: stdout, GetRootJson, outcome) for the same program, selectors and inputs; -f vs inline, stdin "
-            "vs file, -o FILE vs -o -, and -r E vs BEGINFILE { $ = E } (library and binary) are compared with each other.  non-trivial = at "
+            "vs file, -o FILE vs -o -, and -r E vs BEGINFILE { $ = E } (library and binary) are compared with each other.  Also documents, keys, "
+            "$file names, selectors and program output full of printf verbs and percent signs (-o FILE and -o - must hold the library's bytes), and "
+            "programs whose output is empty or does not end in a line break (printf in END / BEGIN only / per record, after exit, before a runtime "
+            "fault, 4 KiB - 128 KiB in one piece, thousands of small pieces): with -o - the document follows ALL program output byte for byte.  non-trivial = at "
             "least two non-default options")
 
     def generate(self, rng, tier):
@@ -187,6 +219,34 @@ class C14(Check):
             self.rels.append((sc, bf))
             cases.append(Case(sid + "R", lib_line(sid + "R", prog, files, [e]), sc.meta(role="-r E"), True, ("rel",)))
             cases.append(Case(sid + "B", lib_line(sid + "B", bf, files, []), sc.meta(role="BEGINFILE { $ = E }", prog=bf, selectors=[]), True, ("rel",)))
+        # ---- (added last) percent signs everywhere; program output without a final line break in front of the -o - document
+        quick = tier == "quick"
+
+        def scen(prefix, prog, files, sels, kind):
+            sid = "%s%d" % (prefix, len([x for x in self.scenarios if x.id.startswith(prefix)]))
+            sc = Scenario(sid, prog, files, sels, kind)
+            self.scenarios.append(sc)
+            cases.append(Case(sid + "F", lib_line(sid + "F", prog, files, sels), sc.meta(role="library run, named files"), True, (kind,)))
+            if len(files) == 1:
+                cases.append(Case(sid + "S", lib_line(sid + "S", prog, [("<stdin>", files[0][1])], sels), sc.meta(role="library run, stdin"), True, (kind,)))
+
+        pairs = [(p, d) for p in PCT_PROGS for d in PCT_DOCS]
+        if quick:
+            pairs = [(p, rng.choice(PCT_DOCS)) for p in PCT_PROGS] + [(p, rng.choice(PCT_DOCS)) for p in PCT_PROGS] + [(rng.choice(PCT_PROGS), d) for d in PCT_DOCS]
+        for prog, doc in pairs:
+            nfiles = rng.choice([1, 1, 1, 1, 2])
+            names = rng.sample(PCT_NAMES, nfiles)
+            files = [(names[0], doc)] + [(nm, rng.choice(PCT_DOCS)) for nm in names[1:]]
+            sels = [rng.choice(PCT_SELS)] if rng.random() < 0.15 else []
+            scen("p", prog, files, sels, "percent signs")
+        pairs = [(p, d) for p in NONL_PROGS for d in NONL_DOCS]
+        if quick:
+            pairs = [(p, rng.choice(NONL_DOCS)) for p in NONL_PROGS] + [(p, rng.choice(NONL_DOCS)) for p in NONL_PROGS[:24]]
+        for prog, doc in pairs:
+            files = [(rng.choice(["in0.json", "data 0.json", "sub/in0.json"]), doc)]
+            if rng.random() < 0.1:
+                files.append(("in1.json", rng.choice(NONL_DOCS)))
+            scen("n", prog, files, [], "output without a final line break")
         return cases
 
     def oracle(self, case, impl):
